@@ -83,7 +83,7 @@ class Interp:
         self._ub_cache = {}
         self._ub_keep = []
         self.fork_sites = None
-        self.solver_timeout_ms = 20000
+        self.solver_timeout_ms = 8000
         self.summarize = set()
         self.in_summary = False
         self.summary_cache = {}
@@ -204,8 +204,65 @@ class Interp:
         self.solver_checks += 1
         r = self.solver.check(c)
         if r == z3.unknown:
-            raise Unsupported('solver returned unknown (%s) on a feasibility check in %s' % (self.solver.reason_unknown(), self.stack[-1] if self.stack else '?'))
+            r = self.check_split([c])
+            if r == z3.unknown:
+                raise Unsupported('solver returned unknown (%s) on a feasibility check in %s' % (self.solver.reason_unknown(), self.stack[-1] if self.stack else '?'))
         return r == z3.sat
+
+    # ---- fallback for hard queries: case split on small-domain parameters that occur under a multiplication/remainder
+    def nonlinear_vars(self, terms):
+        seen = set(); out = {}
+        def walk(t, under):
+            key = (t.get_id(), under)
+            if key in seen: return
+            seen.add(key)
+            if z3.is_app(t):
+                k = t.decl().kind()
+                if k == z3.Z3_OP_UNINTERPRETED and not t.children():
+                    if under: out[t.get_id()] = t
+                    return
+                u = under or k in (z3.Z3_OP_BMUL, z3.Z3_OP_BUDIV, z3.Z3_OP_BUREM, z3.Z3_OP_BUDIV_I, z3.Z3_OP_BUREM_I,
+                                   z3.Z3_OP_BSDIV, z3.Z3_OP_BSREM, z3.Z3_OP_BSDIV_I, z3.Z3_OP_BSREM_I)
+                for ch in t.children(): walk(ch, u)
+        for t in terms: walk(t, False)
+        vb = self.var_bounds()
+        cands = [(vb[i], v) for i, v in out.items() if i in vb and 0 < vb[i] <= 64]
+        cands.sort(key=lambda x: x[0])
+        return [v for _, v in cands]
+
+    def check_split(self, extra, budget_ms=None, depth=0, cands=None, deadline=None):
+        """decide satisfiability of solver ∧ extra by enumerating the values of small-domain parameters that occur in
+        non-linear positions; returns z3.sat (self.solver.model() valid) / z3.unsat / z3.unknown"""
+        s = self.solver
+        if deadline is None: deadline = time.time() + 600
+        if cands is None:
+            cands = self.nonlinear_vars(list(self.pc) + list(extra))
+        if not cands or depth >= 3 or time.time() > deadline: return z3.unknown
+        v = cands[0]; rest = cands[1:]
+        ub = self.var_bounds()[v.get_id()]
+        any_unknown = False
+        for val in range(ub + 1):
+            lit = v == z3.BitVecVal(val, v.size())
+            self.solver_checks += 1
+            r = s.check(*(list(extra) + [lit]))
+            if r == z3.unknown:
+                s.push(); s.add(lit)
+                try:
+                    r = self.check_split(extra, budget_ms, depth + 1, rest, deadline)
+                    if r == z3.sat:
+                        self._split_model = s.model()
+                finally:
+                    s.pop()
+                if r == z3.sat:
+                    # re-establish the model outside the pushed scope
+                    self.solver_checks += 1
+                    mm = self._split_model
+                    fix = [x == mm.eval(x, model_completion=True) for x in cands]
+                    if s.check(*(list(extra) + fix)) == z3.sat: return z3.sat
+                    return z3.unknown
+            if r == z3.sat: return z3.sat
+            if r == z3.unknown: any_unknown = True
+        return z3.unknown if any_unknown else z3.unsat
 
     def add_pc(self, c):
         self.pc.append(c); self.solver.add(c)
